@@ -28,10 +28,15 @@ def class_orbits(n):
     tab = lc.orbit_table(n)
     out = []
     for k in range(cls.count()):
-        g = cls(k).get_graph()
-        a = np.asarray(g.adjacency_matrix)
-        edges = [(i, j) for i in range(n) for j in range(i + 1, n) if a[i, j] & 1]
-        out.append(tab[lc.gid_from_edges(n, edges)])
+        try:
+            g = cls(k).get_graph()
+            a = np.asarray(g.adjacency_matrix)
+            if a.shape != (n, n):
+                raise ValueError("wrong size")
+            edges = [(i, j) for i in range(n) for j in range(i + 1, n) if a[i, j] & 1]
+            out.append(tab[lc.gid_from_edges(n, edges)])
+        except Exception:  # noqa: BLE001  (C06 reports a broken representative; here the pairing falls back to the classifier check)
+            out.append(None)
     return out
 
 
@@ -70,7 +75,7 @@ def check_line(n, name, k, line, orbits, rep, fname):
             break
     # class
     tab = lc.orbit_table(n)
-    if k < len(orbits) and tab[gid] != orbits[k]:
+    if k < len(orbits) and orbits[k] is not None and tab[gid] != orbits[k]:
         bad("class", f"graph {gid} lies in LC orbit {tab[gid]} but class id {k} stands for orbit {orbits[k]}")
     try:
         lid = L.lc.determine_lc_class(L.Stabilizer(L.Graph.decompress(n, gid))).id()
